@@ -118,6 +118,8 @@ class BE(Seg):
         jv = _cval(j)
         if jv is None:
             raise Undecided("symbolic index into an integer field")
+        if self.w == 1:
+            return self.t
         return (self.t / z3.IntVal(256 ** (self.w - 1 - jv))) % 256
 
     def sub(self, lo, hi):
@@ -528,7 +530,17 @@ class Rope:
         return self.slice(0, n).eq(p)
 
     def rstrip(self, chars=None):
-        raise Undecided("rstrip on symbolic bytes")
+        cv = self.concrete()
+        if cv is not None:
+            return cv.rstrip(chars)
+        n = _cval(self.length_term())
+        if n is None or chars is None or len(chars) != 1 or n > 4096:
+            raise Undecided("rstrip on symbolic bytes of symbolic length")
+        ch = chars[0] if isinstance(chars, bytes) else ord(chars)
+        c = cur()
+        while n > 0 and c.branch(self.byte_at(n - 1) == ch):
+            n -= 1
+        return self.slice(0, n)
 
     def __repr__(self):
         return "Rope(%s)" % self.key()
